@@ -67,7 +67,7 @@ CLAIMS = {
    note='Trusted: TLC; driver projection of values to ids.'),
  "C05": dict(
    category="model_checking", design_ref="DESIGN.md §6 C05",
-   technique='Frozen corpus (420 small streams frozen once from the encoder over all methods/sub-methods/speeds/layouts + 25 legacy testdata streams, versions 1.1..2.3, + 69 size-covering streams: alphabets of 2^1..2^17 symbols, grid meshes up to 6k faces) decoded and compared by TLC with the frozen ordered digests; header rewrites to every version checked against the TLA+ Supported predicate; gate table sanity model-checked',
+   technique='Frozen corpus (420 small streams frozen once from the encoder over all methods/sub-methods/speeds/layouts + 25 legacy testdata streams, versions 1.1..2.3, + 131 size-covering / boundary / handle streams in corpus_big: alphabets of 2^1..2^17 symbols, grid meshes up to 6k faces, 255/256/257/65535/65536/65537 points, two topology-split events at one symbol); every stream also through one reused Decoder + DecoderBuffer and with the attribute transform skipped (frozen digests) decoded and compared by TLC with the frozen ordered digests; header rewrites to every version checked against the TLA+ Supported predicate; gate table sanity model-checked',
    text='Any change that alters what an existing stream decodes to (format constants, version gates, traversal order, enum values) changes a digest; unknown versions must yield UNKNOWN_VERSION.',
    note='Trusted: TLC; the digest function of the driver; the corpus frozen at the pinned commit.'),
  "C13": dict(
@@ -82,7 +82,7 @@ CLAIMS = {
    note='Trusted: TLC; values > 48 bytes compared through (length, hash).'),
  "C02": dict(
    category="fault_enumeration", design_ref="DESIGN.md §6 C02, §13.1",
-   technique='(1) TLC enumerates the semantic fault space of the Edgebreaker connectivity decoder (MC_EbDecoder: every symbol string up to 4 (5) symbols x declared counts on the guard boundaries x topology-split tables x start-face bits, standard and valence traversal; invariants Guards/GuardsV), every row is assembled into a real stream and decoded under ASan+UBSan+libstdc++ assertions, the model predicts accept/reject and the decoded faces (drift only); nested-metadata streams around and far above the nesting limit; (2) fault enumeration over the frozen corpus (every truncation, byte / 32-bit / varint patterns per offset, header and version rewrites, multi-site, splices) decoded through all public entry points under ASan+UBSan with a fork server; TLC (Trace_Fault) validates the Status / termination / input-untouched clauses on the recorded probes',
+   technique='(1) TLC enumerates the semantic fault space of the Edgebreaker connectivity decoder (MC_EbDecoder: every symbol string up to 4 (5) symbols x declared counts on the guard boundaries x topology-split tables x start-face bits, standard and valence traversal; invariants Guards/GuardsV) and of the sequential mesh connectivity decoder (MC_SeqDecoder: declared points / faces x stored indices in every width x compressed index differences), every row is assembled into a real stream and decoded under ASan+UBSan+libstdc++ assertions, the model predicts accept/reject and the decoded faces (drift only); nested-metadata streams around and far above the nesting limit; (2) fault enumeration over the frozen corpus (every truncation, byte / 32-bit / varint patterns per offset, header and version rewrites, multi-site, splices) decoded through all public entry points under ASan+UBSan with a fork server; TLC (Trace_Fault) validates the Status / termination / input-untouched clauses on the recorded probes',
    text='Each (stream, fault) pair is one probe attributed exactly; the only tolerated abnormal exit is an allocation failure; sanitizer reports, signals, hangs, uncaught exceptions and modified inputs are violations. Semantic faults: exhaustive within the stated bounds of MC_EbDecoder (position-only streams, no attribute seams).',
    note="Trusted: ASan/UBSan (memory safety, UB), the fork server's attribution, TLC for the record-level clauses. NDEBUG configuration."),
  "C14": dict(
